@@ -60,6 +60,8 @@ pub use json_bin_encode::escape_binary_json_string;
 
 mod topic_alias_send;
 pub use self::topic_alias_send::TopicAliasSend;
+#[cfg(feature = "verif-hooks")]
+pub use self::topic_alias_send::VerifTopicAliasSendState;
 mod topic_alias_recv;
 pub use self::topic_alias_recv::TopicAliasRecv;
 
